@@ -180,6 +180,9 @@ theorem tx_last (c : JCtx) (e : Expr) (h : JsOkE e = true) : LastOk (txJ (toJsE 
         exact lastOk_append _ _ (jsIdLex_all _ hp).1 (lastOk_id _ hp)
       | _ => simp [JsOkE] at h
     | _ :: _ :: _, h => simp [JsOkE] at h
+  | mcall o m as =>
+    obtain ⟨x, _, hte, _, _⟩ := recvJsOk_spec c o m as (by simp only [JsOkE, Bool.and_eq_true] at h; exact h.1.1)
+    rw [hte]; simp only [txJ]; exact lastOk_paren _
   | key v =>
     have hv : jsIdLex v = true := by simpa [JsOkE] using h
     by_cases hd : v = "date".toList ∨ v = "time".toList
@@ -215,7 +218,10 @@ theorem jsOkLv_oprop (v : Spec.Name) (o : Expr) (hf : JsOkLv (.oprop v o) = true
 theorem jsOkLv_the (t : Tbl) (k : Nat) (as : List Expr) (hf : JsOkLv (.the t k as) = true) : JsOkE (.the t k as) = true := by
   match as, hf with
   | [e], hf => simp only [JsOkLv, Bool.and_eq_true] at hf; exact hf.2
-  | [], hf => simp [JsOkLv] at hf
+  | [], hf =>
+    cases t with
+    | special => simpa [JsOkLv, JsOkE] using hf
+    | _ => simp [JsOkLv] at hf
   | _ :: _ :: _, hf => simp [JsOkLv] at hf
 
 /-- assignment targets -/
@@ -270,6 +276,156 @@ theorem lv_ok (c : JCtx) (lv : Expr) (hf : JsOkLv lv = true) : txJ (toJsE c lv) 
     have hk := jsOkLv_the t k as hf
     exact ⟨tx_ne_nil c _ hk, toJsE_lexok c _ hk, toJsE_fragJ c _ hk⟩
   | _ => simp [JsOkLv] at hf
+
+/-! ### right-hand sides and `put` targets -/
+
+theorem txRhs_frag (r : JE) (h : JFrag r) : txRhs r = txJ r := by
+  cases r <;> first | rfl | exact absurd h (by simp [JFrag])
+
+theorem prRhs_frag (r : JE) (h : JFrag r) : prRhs r = prJ r := by
+  cases r <;> first | rfl | exact absurd h (by simp [JFrag])
+
+/-- `SpAssignOperation.generate_js` -/
+theorem js_spAssign (p : Int) (l r : Node) (mode : Str) (ind : Nat) (lt rt : Str)
+    (hl : js true true l ind = .ok (.s lt)) (hr : js true false r ind = .ok (.s rt)) :
+    js true false (.spAssign p l r mode) ind =
+      .ok (.s (if mode = S "after" then lt ++ S " = new LingoString(" ++ lt ++ S " + " ++ rt ++ S ")"
+               else if mode = S "before" then lt ++ S " = new LingoString(" ++ rt ++ S " + " ++ lt ++ S ")"
+               else lt ++ S " = " ++ rt)) := by
+  simp only [js, hl, hr, bind, Except.bind, pure, Except.pure, Name.str]
+  split
+  · rfl
+  · split <;> rfl
+
+theorem js_strOp_one_t (kind : Str) (p : Int) (start of_ : Node) (ind : Nat) (c a : Str)
+    (hc : js true true of_ 0 = .ok (.s c)) (ha : js true false start 0 = .ok (.s a)) :
+    js true true (.strOp kind p start .none of_) ind = .ok (.s (jsReceiver c ++ S "." ++ kind ++ S "[" ++ a ++ S "]")) := by
+  simp only [js, Node.isNone, if_true, hc, ha, bind, Except.bind, pure, Except.pure, Name.str]
+
+theorem js_strOp_range_t (kind : Str) (p : Int) (start stop of_ : Node) (ind : Nat) (c a b : Str) (hs : stop.isNone = false)
+    (hc : js true true of_ 0 = .ok (.s c)) (ha : js true false start 0 = .ok (.s a)) (hb : js true false stop 0 = .ok (.s b)) :
+    js true true (.strOp kind p start stop of_) ind =
+      .ok (.s (jsReceiver c ++ S "." ++ kind ++ S "[range(" ++ a ++ S ", " ++ b ++ S ")]")) := by
+  simp only [js, hs, Bool.false_eq_true, if_false, hc, ha, hb, bind, Except.bind, pure, Except.pure, Name.str]
+
+theorem putTarget_chunk_range (c : JCtx) (k : ChunkKind) (a b d : Expr) (h : isZero b = false) :
+    putTarget c (.chunk k a b d) = .idx (jmem (putTarget c d) k.tag) (jcall "range" [toJsE c a, toJsE c b]) := by
+  cases b with
+  | int n => cases n with
+    | zero => simp [isZero] at h
+    | succ n => simp [putTarget]
+  | _ => simp [putTarget]
+
+/-- the translation of a target is never parenthesised as a receiver, and its text starts like an identifier -/
+theorem tg_head (c : JCtx) : ∀ (lv : Expr), JsOkTg lv = true →
+    (putTarget c lv).needsParen = false ∧ (txJ (putTarget c lv)).head?.map special = some false
+  | .chunk k a b d, h => by
+    simp only [JsOkTg, Bool.and_eq_true] at h
+    obtain ⟨hp, hh⟩ := tg_head c d h.2
+    refine ⟨by simp only [putTarget]; rfl, ?_⟩
+    simp only [putTarget, jmem, txJ, np_mem, hp, Bool.false_eq_true, if_false, List.append_assoc]
+    exact head_append_some _ _ _ hh
+  | .field e, _ => by
+    refine ⟨rfl, ?_⟩
+    simp [putTarget, jmem, jcall, txJ, JE.needsParen, S, special, isAsciiDigit]
+  | .var .loc n, h => by
+    simp only [JsOkTg, Bool.and_eq_true, bne_iff_ne, ne_eq] at h
+    have hm : ¬ n = "me".toList := h.2
+    simp only [putTarget, toJsE, hm, if_false, txJ]
+    exact ⟨rfl, jsIdLex_head n (jsIdOk_lex n h.1)⟩
+  | .var .param n, h => by
+    simp only [JsOkTg, Bool.and_eq_true, bne_iff_ne, ne_eq] at h
+    have hm : ¬ n = "me".toList := h.2
+    simp only [putTarget, toJsE, hm, if_false, txJ]
+    exact ⟨rfl, jsIdLex_head n (jsIdOk_lex n h.1)⟩
+  | .var .prop n, _ => by
+    refine ⟨rfl, ?_⟩
+    simp [putTarget, toJsE, jid, txJ, JE.needsParen, S, special, isAsciiDigit]
+  | .var .glob _, h => by simp [JsOkTg] at h
+  | .int _, h => by simp [JsOkTg] at h
+  | .float _ _, h => by simp [JsOkTg] at h
+  | .str _, h => by simp [JsOkTg] at h
+  | .sym _, h => by simp [JsOkTg] at h
+  | .me, h => by simp [JsOkTg] at h
+  | .bin _ _ _, h => by simp [JsOkTg] at h
+  | .un _ _, h => by simp [JsOkTg] at h
+  | .call _ _, h => by simp [JsOkTg] at h
+  | .mcall _ _ _, h => by simp [JsOkTg] at h
+  | .list _, h => by simp [JsOkTg] at h
+  | .plist _, h => by simp [JsOkTg] at h
+  | .the _ _ _, h => by simp [JsOkTg] at h
+  | .key _, h => by simp [JsOkTg] at h
+  | .movie _, h => by simp [JsOkTg] at h
+  | .oprop _ _, h => by simp [JsOkTg] at h
+
+theorem tg_receiver (c : JCtx) (lv : Expr) (h : JsOkTg lv = true) : jsReceiver (txJ (putTarget c lv)) = txJ (putTarget c lv) := by
+  rw [jsReceiver_eq, (tg_head c lv h).2]; simp
+
+/-- **target text**: `SpAssignOperation.target_js` (the field at the bottom of the chunk chain is addressed through `.text`) -/
+theorem js_tg (c : JCtx) : ∀ (lv : Expr), JsOkTg lv = true → ∀ (l : Node), EmbTg lv l → ∀ (ind : Nat),
+    js true true l ind = .ok (.s (txJ (putTarget c lv)))
+  | .chunk k a b d, hf, l, h, ind => by
+    simp only [EmbTg] at h
+    obtain ⟨p, x, y, z, rfl, hx, hy, hz⟩ := h
+    simp only [JsOkTg, Bool.and_eq_true] at hf
+    have iha := js_emb c a hf.1.1 x hx 0
+    have ihd := js_tg c d hf.2 z hz 0
+    have hnp := (tg_head c d hf.2).1
+    rcases hy with ⟨hz0, rfl⟩ | ⟨hz0, hy⟩
+    · have hb0 := isZero_true b hz0
+      subst hb0
+      rw [js_strOp_one_t _ p x z ind _ _ ihd iha, tg_receiver c d hf.2]
+      simp only [putTarget, jmem, txJ, np_mem, hnp, Bool.false_eq_true, if_false, List.append_assoc]
+    · have ihb := js_emb c b hf.1.2 y hy 0
+      rw [js_strOp_range_t _ p x y z ind _ _ _ (emb_isNone b y hy) ihd iha ihb, tg_receiver c d hf.2, putTarget_chunk_range c k a b d hz0]
+      simp only [jmem, jcall, txJ, txArgs, np_mem, np_id, hnp, Bool.false_eq_true, if_false, List.append_assoc]
+      simp [S, List.append_assoc]
+  | .field e, hf, l, h, ind => by
+    simp only [EmbTg, Emb] at h
+    obtain ⟨p, x, rfl, hx⟩ := h
+    have he : JsOkE e = true := by simpa [JsOkTg] using hf
+    have ih := js_emb c e he x hx ind
+    simp only [js, jsUnaOp_field, ih, bind, Except.bind, pure, Except.pure, Name.str, true_and, if_true]
+    simp [putTarget, jmem, jcall, txJ, txArgs, JE.needsParen, S, List.append_assoc]
+  | .var .loc n, hf, l, h, ind => by
+    simp only [JsOkTg, Bool.and_eq_true] at hf
+    have hk : JsOkE (.var .loc n) = true := by simp only [JsOkE, Bool.or_eq_true]; exact Or.inr hf.1
+    have hl : Emb (.var .loc n) l := by simpa [EmbTg] using h
+    obtain ⟨p, rfl⟩ := hl
+    have := js_emb c (.var .loc n) hk (.leaf .localVar (.s n) p) ⟨p, rfl⟩ ind
+    simp only [js] at this ⊢
+    simpa [putTarget] using this
+  | .var .param n, hf, l, h, ind => by
+    simp only [JsOkTg, Bool.and_eq_true] at hf
+    have hk : JsOkE (.var .param n) = true := by simp only [JsOkE, Bool.or_eq_true]; exact Or.inr hf.1
+    have hl : Emb (.var .param n) l := by simpa [EmbTg] using h
+    obtain ⟨p, rfl⟩ := hl
+    have := js_emb c (.var .param n) hk (.leaf .paramName (.s n) p) ⟨p, rfl⟩ ind
+    simp only [js] at this ⊢
+    simpa [putTarget] using this
+  | .var .prop n, hf, l, h, ind => by
+    have hk : JsOkE (.var .prop n) = true := by simpa [JsOkTg, JsOkE] using hf
+    have hl : Emb (.var .prop n) l := by simpa [EmbTg] using h
+    obtain ⟨p, rfl⟩ := hl
+    have := js_emb c (.var .prop n) hk (.leaf .definedProp (.s n) p) ⟨p, rfl⟩ ind
+    simp only [js] at this ⊢
+    simpa [putTarget] using this
+  | .var .glob _, h, _, _, _ => by simp [JsOkTg] at h
+  | .int _, h, _, _, _ => by simp [JsOkTg] at h
+  | .float _ _, h, _, _, _ => by simp [JsOkTg] at h
+  | .str _, h, _, _, _ => by simp [JsOkTg] at h
+  | .sym _, h, _, _, _ => by simp [JsOkTg] at h
+  | .me, h, _, _, _ => by simp [JsOkTg] at h
+  | .bin _ _ _, h, _, _, _ => by simp [JsOkTg] at h
+  | .un _ _, h, _, _, _ => by simp [JsOkTg] at h
+  | .call _ _, h, _, _, _ => by simp [JsOkTg] at h
+  | .mcall _ _ _, h, _, _, _ => by simp [JsOkTg] at h
+  | .list _, h, _, _, _ => by simp [JsOkTg] at h
+  | .plist _, h, _, _, _ => by simp [JsOkTg] at h
+  | .the _ _ _, h, _, _, _ => by simp [JsOkTg] at h
+  | .key _, h, _, _, _ => by simp [JsOkTg] at h
+  | .movie _, h, _, _, _ => by simp [JsOkTg] at h
+  | .oprop _ _, h, _, _, _ => by simp [JsOkTg] at h
 
 theorem listFn_return : listFn (S "return") = false := by decide
 
@@ -336,7 +492,7 @@ theorem js_stmt_emb (hs : List Spec.Name) (hret : hs.contains (S "return") = fal
     have hlast : LastOk (txJ (toJsE { handlers := hs, inTell := false } lv) ++ S " = " ++ txJ (toJsE { handlers := hs, inTell := false } v)) :=
       lastOk_append _ _ (tx_ne_nil _ v hf.2) (tx_last _ v hf.2)
     rw [js_stmt p _ ind _ e3 (by simpa [Node.withResult] using hlast)]
-    simp [Node.withResult, toJsS, txS, S, List.append_assoc]
+    simp [Node.withResult, toJsS, txS, S, List.append_assoc, txRhs_frag _ (toJsE_fragJ { handlers := hs, inTell := false } v hf.2)]
   | call f as =>
     obtain ⟨p, q, q', ops, rfl, hops⟩ := h
     by_cases hr : f = "return".toList
@@ -404,6 +560,60 @@ theorem js_stmt_emb (hs : List Spec.Name) (hret : hs.contains (S "return") = fal
     have hlo : LastOk (S "exit()") := lastOk_paren (S "exit(")
     rw [js_stmt p _ ind _ e (by simpa [Node.withResult] using hlo)]
     simp [Node.withResult, toJsS, txS, jcall, txJ, txArgs, JE.needsParen, S]
+  | put m v lv =>
+    simp only [EmbSJ] at h
+    obtain ⟨p, q, l, r, rfl, hl, hr⟩ := h
+    simp only [JsOkS, Bool.and_eq_true] at hf
+    have e1 := js_tg { handlers := hs, inTell := false } lv hf.2 l hl ind
+    have e2 := js_emb { handlers := hs, inTell := false } v hf.1 r hr ind
+    have e3 := js_spAssign q l r m.tag.toList ind _ _ e1 e2
+    have hfr := toJsE_fragJ { handlers := hs, inTell := false } v hf.1
+    cases m with
+    | into =>
+      have hm1 : ¬ (PutMode.into.tag.toList = S "after") := by decide
+      have hm2 : ¬ (PutMode.into.tag.toList = S "before") := by decide
+      simp only [hm1, hm2, if_false] at e3
+      have hlast : LastOk (txJ (putTarget { handlers := hs, inTell := false } lv) ++ S " = " ++ txJ (toJsE { handlers := hs, inTell := false } v)) :=
+        lastOk_append _ _ (tx_ne_nil _ v hf.1) (tx_last _ v hf.1)
+      rw [js_stmt p _ ind _ e3 (by simpa [Node.withResult] using hlast)]
+      simp [Node.withResult, toJsS, txS, S, List.append_assoc, txRhs_frag _ hfr]
+    | after =>
+      have hm1 : PutMode.after.tag.toList = S "after" := by decide
+      simp only [hm1, if_true] at e3
+      rw [hm1]
+      have hlast : LastOk (txJ (putTarget { handlers := hs, inTell := false } lv) ++ S " = new LingoString(" ++
+          txJ (putTarget { handlers := hs, inTell := false } lv) ++ S " + " ++ txJ (toJsE { handlers := hs, inTell := false } v) ++ S ")") :=
+        lastOk_paren _
+      rw [js_stmt p _ ind _ e3 (by simpa [Node.withResult] using hlast)]
+      simp [Node.withResult, toJsS, txS, txRhs, txBare, S, List.append_assoc]
+    | before =>
+      have hm2 : PutMode.before.tag.toList = S "before" := by decide
+      have hne : ¬ (S "before" = S "after") := by decide
+      simp only [hm2, hne, if_false, if_true] at e3
+      rw [hm2]
+      have hlast : LastOk (txJ (putTarget { handlers := hs, inTell := false } lv) ++ S " = new LingoString(" ++
+          txJ (toJsE { handlers := hs, inTell := false } v) ++ S " + " ++ txJ (putTarget { handlers := hs, inTell := false } lv) ++ S ")") :=
+        lastOk_paren _
+      rw [js_stmt p _ ind _ e3 (by simpa [Node.withResult] using hlast)]
+      simp [Node.withResult, toJsS, txS, txRhs, txBare, S, List.append_assoc]
+  | mcall o m as =>
+    simp only [JsOkS, JsOkE, Bool.and_eq_true] at hf
+    obtain ⟨⟨hro, hm⟩, has⟩ := hf
+    obtain ⟨x, ⟨hx1, hx2, hx3, hx4⟩, hte, hmr, hox⟩ := recvJsOk_spec { handlers := hs, inTell := false } o m as hro
+    simp only [EmbSJ] at h
+    obtain ⟨p, q, q', ps, rc, ops, nm, hnm, rfl, hops, hrc⟩ := h
+    rw [hmr] at hnm
+    simp only [Option.some.injEq] at hnm
+    subst hnm
+    have hrcn : rc = .none := by rcases hox with rfl | rfl <;> exact hrc
+    subst hrcn
+    have e1 := js_mcall_core { handlers := hs, inTell := false } x m as hx1 hx3 hx4 (S "load_list") q q' ps false ops ind
+      (js_embL _ as has ops hops ind)
+    have hlast : LastOk (txJ (JE.call (.id x) (jcall "symbol" [.sstr m] :: toJsEs { handlers := hs, inTell := false } as))) := by
+      simp only [txJ]; exact lastOk_paren _
+    rw [js_stmt p _ ind _ e1 (by simpa [Node.withResult] using hlast)]
+    simp only [Node.withResult, toJsS, hte, txS, Bool.false_eq_true, if_false]
+    simp [S, List.append_assoc]
   | delete t =>
     simp only [EmbSJ, EmbSH] at h
     obtain ⟨p, q, l, rfl, hl⟩ := h
@@ -433,6 +643,7 @@ def isSimpleJ : JS → Bool
   | .ifs .. => false
   | .while .. => false
   | .for3 .. => false
+  | .forOf .. => false
   | _ => true
 
 theorem txT_simple (ind : Nat) (s : JS) (h : isSimpleJ s = true) : txT ind s = indentOf ind ++ txS s ++ S "\n" := by
@@ -449,6 +660,8 @@ theorem toJsS_simple (c : JCtx) (s : Stmt) (hf : JsOkS s = true) : isSimpleJ (to
   | exit => rfl
   | delete t => rfl
   | hilite t => rfl
+  | put m v lv => cases m <;> rfl
+  | mcall o m as => rfl
   | _ => simp [JsOkS] at hf
 
 theorem stripParens_group (x : Str) : stripParens (S "(" ++ x ++ S ")") = x := by
@@ -601,16 +814,62 @@ theorem js_tree (hs : List Spec.Name) (hret : hs.contains (S "return") = false) 
           simp [S, List.append_assoc, txBare]
       | _ => simp [JsOkT] at hf
     | _ => simp [JsOkT] at hf
-  | .put .., hf, _, _, _ => by simp [JsOkT] at hf
+  | .put m v lv, hf, n, h, ind => by
+    simp only [JsOkT] at hf
+    rw [js_stmt_emb hs hret (.put m v lv) hf n h ind, txT_simple _ _ (toJsS_simple _ _ hf)]
   | .delete t, hf, n, h, ind => by
     simp only [JsOkT] at hf
     rw [js_stmt_emb hs hret (.delete t) hf n h ind, txT_simple _ _ (toJsS_simple _ _ hf)]
   | .hilite t, hf, n, h, ind => by
     simp only [JsOkT] at hf
     rw [js_stmt_emb hs hret (.hilite t) hf n h ind, txT_simple _ _ (toJsS_simple _ _ hf)]
-  | .mcall .., hf, _, _, _ => by simp [JsOkT] at hf
+  | .mcall o m as, hf, n, h, ind => by
+    simp only [JsOkT] at hf
+    rw [js_stmt_emb hs hret (.mcall o m as) hf n h ind, txT_simple _ _ (toJsS_simple _ _ hf)]
   | .tell .., hf, _, _, _ => by simp [JsOkT] at hf
-  | .repeatIn .., hf, _, _, _ => by simp [JsOkT] at hf
+  | .repeatIn lv l body, hf, n, h, ind => by
+    cases lv with
+    | var k v =>
+      cases k with
+      | loc =>
+        simp only [EmbSJ] at h
+        obtain ⟨p, rp, re, pb, pk, pc, pl, pv, ln, body', rfl, hl, hbody⟩ := h
+        simp only [JsOkT, Bool.and_eq_true] at hf
+        obtain ⟨⟨hv, hfl⟩, hfbody⟩ := hf
+        have hvk : JsOkE (.var .loc v) = true := by simp only [JsOkE, Bool.or_eq_true]; exact Or.inr hv
+        have ea := js_emb { handlers := hs, inTell := false } l hfl ln hl 0
+        have e3 := js_trees hs hret body hfbody body' hbody (ind + 1)
+        have ev := js_emb { handlers := hs, inTell := false } (.var .loc v) hvk (.leaf .localVar (.s v) pv) ⟨pv, rfl⟩ 0
+        have hnone : (Node.leaf Leaf.localVar (Name.s v) pv).isNone = false := rfl
+        generalize hlv : Node.leaf Leaf.localVar (Name.s v) pv = lvn at ev hnone ⊢
+        -- the condition `1 <= count(l)` is generated (and thrown away)
+        have hcf : JsOkE (.bin .le (.int 1) (.call "count".toList [l])) = true := by
+          have h1 : JsOkE (.call "count".toList [l]) = true := by
+            have hc1 : jsIdOk "count".toList = true := by decide
+            have hc2 : specialCall "count".toList = false := by decide
+            have hc3 : listFn "count".toList = false := by decide
+            simp only [JsOkE, JsOkL, hfl, hc1, hc2, hc3, Bool.and_true, Bool.false_and, Bool.not_false, Bool.true_and]
+          rw [JsOkE, h1]; rfl
+        have hemb : Emb (.bin .le (.int 1) (.call "count".toList [l]))
+            (.binary (S "lte") pb (.leaf .const (.s (S "1")) pk)
+              (.callFn (.s (S "count")) pc (.loadList (S "<load_list>") pl [ln]) true false false .none)) :=
+          ⟨pb, _, _, rfl, ⟨pk, rfl⟩, ⟨pc, pl, false, [ln], rfl, ln, [], rfl, hl, rfl⟩⟩
+        obtain ⟨e1, ec⟩ := js_cond { handlers := hs, inTell := false } _ hcf _ hemb
+        generalize hcn : Node.binary (S "lte") pb (Node.leaf Leaf.const (Name.s (S "1")) pk)
+          (Node.callFn (Name.s (S "count")) pc (Node.loadList (S "<load_list>") pl [ln]) true false false Node.none) = cn' at e1 ⊢
+        have hne1 : ¬ (S "for_in" = S "while") := by decide
+        have hne2 : ¬ (S "for_in" = S "for") := by decide
+        have hcode : js true false (.repeat_ rp re cn' body' (S "for_in") ln (.s v) [] lvn) ind =
+            .ok (.s ((S "for(" ++ txJ (toJsE { handlers := hs, inTell := false } (.var .loc v)) ++ S " of " ++
+              txJ (toJsE { handlers := hs, inTell := false } l) ++ S ") {\n" ++
+              txBody (ind + 1) (toJsSs { handlers := hs, inTell := false } body) ++ indentOf ind) ++ S "}")) := by
+          simp only [js, e1, ev, ea, e3, hnone, hne1, hne2, if_false, if_true, bind, Except.bind, pure, Except.pure, Lscr.Name.asStr,
+            Lscr.Name.str, Bool.false_eq_true]
+        rw [js_stmt_brace p _ ind _ hcode rfl]
+        simp only [toJsS, txT]
+        simp [S, List.append_assoc]
+      | _ => simp [JsOkT] at hf
+    | _ => simp [JsOkT] at hf
   | .exitRepeat, hf, _, _, _ => by simp [JsOkT] at hf
 /-- **J-text for trees**: a statement list -/
 theorem js_trees (hs : List Spec.Name) (hret : hs.contains (S "return") = false) : ∀ (ss : List Stmt), JsOkTs ss = true →
@@ -653,6 +912,7 @@ def LexOKS : JS → Prop
   | .ifs c t e => LexOK c ∧ LexOKSs t ∧ LexOKSs e
   | .while c b => LexOK c ∧ LexOKSs b
   | .for3 v a c _ b => LexOK v ∧ LexOK a ∧ LexOK c ∧ LexOKSs b
+  | .forOf v l b => LexOK v ∧ LexOK l ∧ LexOKSs b
   | _ => False
 def LexOKSs : List JS → Prop
   | [] => True
@@ -675,6 +935,16 @@ theorem lexBare (e : JE) (h : LexOK e) (rest : Str) (hs : SepAll rest) : LexesTo
     simpa [txBare, prBare, S, htok, List.append_assoc] using this
   | _ => exact lexE _ h rest (hs.sep _)
 
+/-- a right-hand side -/
+theorem lexRhs (r : JE) (h : LexOK r) (rest : Str) (hs : SepAll rest) : LexesTo (txRhs r) (prRhs r) rest := by
+  cases r with
+  | newLS e =>
+    have he : LexOK e := h
+    have := (lex_id (S "new") (by decide) _ (by headis)).append ((lex_space _).append
+      ((lex_id (S "LingoString") (by decide) _ (by headis)).append ((lex_lp _).append ((lexBare e he _ (by headis)).append (lex_rp rest)))))
+    simpa [txRhs, prRhs, S, List.append_assoc] using this
+  | _ => exact lexE _ h rest (hs.sep _)
+
 theorem lexSimple (s : JS) (h : LexOKS s) (hsim : isSimpleJ s = true) (rest : Str) : LexesTo (txS s) (prS s) rest := by
   cases s with
   | expr e =>
@@ -683,7 +953,7 @@ theorem lexSimple (s : JS) (h : LexOKS s) (hsim : isSimpleJ s = true) (rest : St
     simpa [txS, prS, S] using this
   | assign l r =>
     obtain ⟨hl, hr⟩ : LexOK l ∧ LexOK r := by simpa [LexOKS] using h
-    have := (lexE l hl _ (by headis)).append ((lex_assign _).append ((lexE r hr _ (by headis)).append (lex_semi rest)))
+    have := (lexE l hl _ (by headis)).append ((lex_assign _).append ((lexRhs r hr _ (by headis)).append (lex_semi rest)))
     simpa [txS, prS, S] using this
   | ret es =>
     cases es with
@@ -705,7 +975,7 @@ theorem lexSimple (s : JS) (h : LexOKS s) (hsim : isSimpleJ s = true) (rest : St
   | ifs _ _ _ => simp [isSimpleJ] at hsim
   | «while» _ _ => simp [isSimpleJ] at hsim
   | for3 _ _ _ _ _ => simp [isSimpleJ] at hsim
-  | forOf _ _ _ => exact absurd h (by simp [LexOKS])
+  | forOf _ _ _ => simp [isSimpleJ] at hsim
   | «with» _ _ => exact absurd h (by simp [LexOKS])
 
 mutual
@@ -763,7 +1033,14 @@ theorem lexT (ind : Nat) : ∀ (s : JS), LexOKS s → ∀ (rest : Str), LexesTo 
     have := (lex_indent ind _).append ((lexSimple (.var n) h rfl _).append (lex_nl rest))
     simpa [txT, S, List.append_assoc] using this
   | .brk, h, _ => absurd h (by simp [LexOKS])
-  | .forOf _ _ _, h, _ => absurd h (by simp [LexOKS])
+  | .forOf v l b, h, rest => by
+    simp only [LexOKS] at h
+    obtain ⟨hv, hl, hb⟩ := h
+    have := (lex_indent ind _).append ((lex_id (S "for") (by decide) _ (by headis)).append ((lex_lp _).append
+      ((lexE v hv _ (by headis)).append ((lex_space _).append ((lex_id (S "of") (by decide) _ (by headis)).append ((lex_space _).append
+      ((lexE l hl _ (by headis)).append ((lex_rp _).append ((lex_space _).append ((lex_lc _).append ((lex_nl _).append
+      ((lexBody (ind + 1) b hb _).append ((lex_indent ind _).append ((lex_rc _).append (lex_nl rest)))))))))))))))
+    simpa [txT, prS, S, List.append_assoc] using this
   | .with _ _, h, _ => absurd h (by simp [LexOKS])
 theorem lexBody (ind : Nat) : ∀ (ss : List JS), LexOKSs ss → ∀ (rest : Str), LexesTo (txBody ind ss) (prBody ss) rest
   | [], _, rest => by simpa [txBody, prBody] using LexesTo.nil rest
@@ -874,15 +1151,19 @@ def RetOK (e : JE) : Prop :=
   (∃ t ts, prJ e = t :: ts ∧ t ≠ .p .semi) ∧
   ∀ (rest : List JTok) (F : Nat), 10 * (prJ e).length ≤ F → jExpr F (prJ e ++ .p .semi :: rest) = some (e, .p .semi :: rest)
 
+/-- right-hand sides the statement reader reads back: an expression of the reader fragment, or `new LingoString(a + b)` -/
+def RhsOK (r : JE) : Prop := JFrag r ∨ ∃ a b, r = .newLS (.bin "+".toList a b) ∧ JFrag a ∧ JFrag b
+
 mutual
 def ReadOKS : JS → Prop
   | .expr e => JFrag e ∧ StartsId e
-  | .assign l r => JFrag l ∧ StartsId l ∧ JFrag r
+  | .assign l r => JFrag l ∧ StartsId l ∧ RhsOK r
   | .ret es => (match es with | [] => True | [e] => RetOK e | _ => False)
   | .var _ => True
   | .ifs c t e => JFrag c ∧ ReadOKSs t ∧ ReadOKSs e
   | .while c b => JFrag c ∧ ReadOKSs b
   | .for3 v a c _ b => JFrag v ∧ JFrag a ∧ JFrag c ∧ ReadOKSs b
+  | .forOf v l b => JFrag v ∧ JFrag l ∧ ReadOKSs b
   | _ => False
 def ReadOKSs : List JS → Prop
   | [] => True
@@ -895,6 +1176,7 @@ def stW : JS → Nat
   | .ifs _ t e => ssW t + ssW e + 2
   | .while _ b => ssW b + 2
   | .for3 _ _ _ _ b => ssW b + 2
+  | .forOf _ _ b => ssW b + 2
   | _ => 0
 def ssW : List JS → Nat
   | [] => 0
@@ -942,6 +1224,76 @@ theorem jExpr_bare (e : JE) (h : JFrag e) (cl : JTok) (hcl : cl = .p .rp ∨ cl 
     simpa [prBare, jExpr, htok, List.append_assoc] using hin
   | _ =>
     exact jExpr_read _ h (cl :: R) (jfollow_closer _ _ _ hclo) (nopost_closer _ _ hclo) F (by simp only [prBare] at hF; omega)
+
+/-- the printed form of a tree of the reader fragment never starts `"…" )` -/
+theorem prJ_not_dstr_rp : ∀ (a : JE), JFrag a → ∀ (Y : List JTok), (∀ r, Y ≠ .p .rp :: r) → ∀ s r, prJ a ++ Y ≠ .dstr s :: .p .rp :: r
+  | .num _ _, _, Y, _, s, r => by simp [prJ]
+  | .lstr _, _, Y, _, s, r => by simp [prJ]
+  | .sstr _, _, Y, _, s, r => by simp [prJ]
+  | .id _, _, Y, _, s, r => by simp [prJ]
+  | .dstr s', _, Y, hY, s, r => by
+    simp only [prJ, List.singleton_append, ne_eq, List.cons.injEq, not_and]
+    intro _ e; exact hY r e
+  | .un op a, h, Y, _, s, r => by
+    obtain ⟨hop, _⟩ : (op = "-".toList ∨ op = "!".toList) ∧ JFrag a := h
+    rcases hop with rfl | rfl <;> simp [prJ, jsUnTok]
+  | .bin _ _ _, _, Y, _, s, r => by simp [prJ]
+  | .mem o n, h, Y, _, s, r => by
+    have ho : JFrag o := h
+    cases hp : o.needsParen with
+    | true => simp [prJ, wrapRecv, hp]
+    | false =>
+      have := prJ_not_dstr_rp o ho ([.p .dot, .id n] ++ Y) (by simp) s r
+      simpa [prJ, wrapRecv, hp, List.append_assoc] using this
+  | .idx o i, h, Y, _, s, r => by
+    have ho : JFrag o := h.1
+    cases hp : o.needsParen with
+    | true => simp [prJ, wrapRecv, hp]
+    | false =>
+      have := prJ_not_dstr_rp o ho (.p .lb :: (prJ i ++ [.p .rb]) ++ Y) (by simp) s r
+      simpa [prJ, wrapRecv, hp, List.append_assoc] using this
+  | .call g as, h, Y, _, s, r => by
+    have hg : JFrag g := h.1
+    cases hp : g.needsParen with
+    | true => simp [prJ, wrapRecv, hp]
+    | false =>
+      have := prJ_not_dstr_rp g hg (.p .lp :: (prJArgs as ++ [.p .rp]) ++ Y) (by simp) s r
+      simpa [prJ, wrapRecv, hp, List.append_assoc] using this
+  | .newLS _, h, _, _, _, _ => absurd h (by simp [JFrag])
+  | .spread _, h, _, _, _, _ => absurd h (by simp [JFrag])
+
+/-- `new LingoString( <expression> )` whose argument is not a single string literal -/
+theorem jU_newLS (f : Nat) (X R : List JTok) (e : JE) (x : JE × List JTok) (hX : ∀ s r, X ≠ .dstr s :: .p .rp :: r)
+    (h1 : jLevel f 1 X = some (e, .p .rp :: R)) (h2 : jPostfix (f + 1) (.newLS e) R = some x) :
+    jUnary (f + 2) (.id "new".toList :: .id "LingoString".toList :: .p .lp :: X) = some x := by
+  have e : jPrimary (f + 1) (.id "new".toList :: .id "LingoString".toList :: .p .lp :: X) = some (.newLS e, R) := by
+    rw [jPrimary.eq_def]
+    simp only [if_true, h1]
+  rw [jUnary.eq_def]
+  simp only [e, h2]
+
+/-- reading a right-hand side followed by `;` -/
+theorem jExpr_rhs (r : JE) (h : RhsOK r) (rest : List JTok) (F : Nat) (hF : 10 * (prRhs r).length + 20 ≤ F) :
+    jExpr F (prRhs r ++ .p .semi :: rest) = some (r, .p .semi :: rest) := by
+  rcases h with h | ⟨a, b, rfl, ha, hb⟩
+  · rw [prRhs_frag r h] at hF ⊢
+    exact jExpr_read r h (.p .semi :: rest) (jfollow_closer _ _ _ (Or.inr (Or.inr (Or.inr rfl)))) trivial F (by omega)
+  · have hfr : JFrag (.bin "+".toList a b) := ⟨by decide, ha, hb⟩
+    have hsemi : JCloser (.p .semi) := Or.inr (Or.inr (Or.inr rfl))
+    have hU : ∀ F', 10 * (prBare (JE.bin "+".toList a b)).length + 13 ≤ F' →
+        jUnary F' (.id "new".toList :: .id "LingoString".toList :: .p .lp :: (prBare (.bin "+".toList a b) ++ .p .rp :: .p .semi :: rest)) =
+          some (.newLS (.bin "+".toList a b), .p .semi :: rest) := by
+      intro F' hF'
+      obtain ⟨f, rfl⟩ : ∃ f, F' = f + 2 := ⟨F' - 2, by omega⟩
+      have h1 := jExpr_bare (.bin "+".toList a b) hfr (.p .rp) (Or.inl rfl) (.p .semi :: rest) f (by omega)
+      refine jU_newLS f _ _ _ _ ?_ h1 (jPostfix_stop f _ _ (nopost_closer _ _ hsemi))
+      intro s r
+      have := prJ_not_dstr_rp a ha ((jsOpTok "+".toList).getD (.p .plus) :: (prJ b ++ .p .rp :: .p .semi :: rest)) (by
+        intro r e; simp only [List.cons.injEq] at e; exact absurd e.1 (by decide)) s r
+      simpa [prBare, List.append_assoc] using this
+    have := jclimb _ _ (.newLS (.bin "+".toList a b)) (10 * (prBare (JE.bin "+".toList a b)).length + 13) hU 6 1 (by omega) (by omega)
+      (jfollow_closer _ _ _ hsemi) F (by simp only [prRhs, List.length_cons, List.length_append] at hF; omega)
+    simpa [prRhs, jExpr, List.append_assoc] using this
 
 theorem jfollow_inc (lvl : Nat) (r : List JTok) : JFollow lvl (.p .inc :: r) := by
   intro l _
@@ -1019,6 +1371,22 @@ theorem jStmt_for (f : Nat) (r1 r2 r3 r4 r5 r6 : List JTok) (v a c v2 : JE) (ste
       show ¬ ("for".toList = "while".toList) by decide, show ¬ ("for".toList = "with".toList) by decide, if_false, if_true,
       show ¬ (JTok.p JP.dec = JTok.p JP.inc) by decide]
 
+theorem jfollow_id (lvl : Nat) (x : Spec.Name) (r : List JTok) : JFollow lvl (.id x :: r) := by
+  intro l _
+  match l with
+  | 0 => rfl | 1 => rfl | 2 => rfl | 3 => rfl | 4 => rfl | 5 => rfl | 6 => rfl
+  | n + 7 => simp [jsBinOfTok]
+
+theorem jStmt_forof (f : Nat) (r1 r2 r3 r4 : List JTok) (v l : JE) (b : List JS)
+    (e1 : jExpr (10 * (r1.length + 1 + 2)) r1 = some (v, .id "of".toList :: r2))
+    (e2 : jExpr (10 * (r1.length + 1 + 2)) r2 = some (l, .p .rp :: .p .lc :: r3))
+    (e3 : jBlock f r3 = some (b, r4)) :
+    jStmt (f + 1) (.id "for".toList :: .p .lp :: r1) = some (.forOf v l b, r4) := by
+  rw [jStmt.eq_def]
+  simp only [List.length_cons, e1, e2, e3, show ¬ ("for".toList = "var".toList) by decide, show ¬ ("for".toList = "break".toList) by decide,
+    show ¬ ("for".toList = "return".toList) by decide, show ¬ ("for".toList = "if".toList) by decide,
+    show ¬ ("for".toList = "while".toList) by decide, show ¬ ("for".toList = "with".toList) by decide, if_false, if_true]
+
 /-- **J5 (reading)**: the statement reader inverts `prS` on simple statements -/
 theorem jStmt_prS (s : JS) (h : ReadOKS s) (hsim : isSimpleJ s = true) (rest : List JTok) (f : Nat) :
     jStmt (f + 1) (prS s ++ rest) = some (s, rest) := by
@@ -1031,13 +1399,13 @@ theorem jStmt_prS (s : JS) (h : ReadOKS s) (hsim : isSimpleJ s = true) (rest : L
     have := jStmt_expr f x (tl ++ .p .semi :: rest) hk e rest (by simpa using e1)
     simpa [prS, hx] using this
   | assign l r =>
-    obtain ⟨hl, ⟨x, tl, hx, hk⟩, hr⟩ : JFrag l ∧ StartsId l ∧ JFrag r := by simpa [ReadOKS] using h
-    have e1 := jExpr_read l hl (.p .assign :: (prJ r ++ .p .semi :: rest)) (jfollow_assign _ _) trivial
-      (10 * ((tl ++ .p .assign :: (prJ r ++ .p .semi :: rest)).length + 2)) (by rw [hx]; simp; omega)
-    have e2 := jExpr_read r hr (.p .semi :: rest) (jfollow_closer _ _ _ (Or.inr (Or.inr (Or.inr rfl)))) trivial
-      (10 * ((tl ++ .p .assign :: (prJ r ++ .p .semi :: rest)).length + 2)) (by simp; omega)
+    obtain ⟨hl, ⟨x, tl, hx, hk⟩, hr⟩ : JFrag l ∧ StartsId l ∧ RhsOK r := by simpa [ReadOKS] using h
+    have e1 := jExpr_read l hl (.p .assign :: (prRhs r ++ .p .semi :: rest)) (jfollow_assign _ _) trivial
+      (10 * ((tl ++ .p .assign :: (prRhs r ++ .p .semi :: rest)).length + 2)) (by rw [hx]; simp; omega)
+    have e2 := jExpr_rhs r hr rest
+      (10 * ((tl ++ .p .assign :: (prRhs r ++ .p .semi :: rest)).length + 2)) (by simp; omega)
     rw [hx] at e1
-    have := jStmt_assign f x (tl ++ .p .assign :: (prJ r ++ .p .semi :: rest)) hk l r _ rest (by simpa using e1) e2
+    have := jStmt_assign f x (tl ++ .p .assign :: (prRhs r ++ .p .semi :: rest)) hk l r _ rest (by simpa using e1) e2
     simpa [prS, hx] using this
   | ret es =>
     cases es with
@@ -1056,7 +1424,7 @@ theorem jStmt_prS (s : JS) (h : ReadOKS s) (hsim : isSimpleJ s = true) (rest : L
   | ifs _ _ _ => simp [isSimpleJ] at hsim
   | «while» _ _ => simp [isSimpleJ] at hsim
   | for3 _ _ _ _ _ => simp [isSimpleJ] at hsim
-  | forOf _ _ _ => exact absurd h (by simp [ReadOKS])
+  | forOf _ _ _ => simp [isSimpleJ] at hsim
   | «with» _ _ => exact absurd h (by simp [ReadOKS])
 
 /-- every statement starts with an identifier token other than `else` -/
@@ -1066,8 +1434,8 @@ theorem prS_head (s : JS) (h : ReadOKS s) : ∃ x tl, prS s = .id x :: tl ∧ x 
     obtain ⟨_, x, tl, hx, hk⟩ : JFrag e ∧ StartsId e := by simpa [ReadOKS] using h
     exact ⟨x, tl ++ [.p .semi], by simp [prS, hx], fun e => by rw [e] at hk; exact absurd hk (by decide)⟩
   | assign l r =>
-    obtain ⟨_, ⟨x, tl, hx, hk⟩, _⟩ : JFrag l ∧ StartsId l ∧ JFrag r := by simpa [ReadOKS] using h
-    exact ⟨x, tl ++ .p .assign :: (prJ r ++ [.p .semi]), by simp [prS, hx], fun e => by rw [e] at hk; exact absurd hk (by decide)⟩
+    obtain ⟨_, ⟨x, tl, hx, hk⟩, _⟩ : JFrag l ∧ StartsId l ∧ RhsOK r := by simpa [ReadOKS] using h
+    exact ⟨x, tl ++ .p .assign :: (prRhs r ++ [.p .semi]), by simp [prS, hx], fun e => by rw [e] at hk; exact absurd hk (by decide)⟩
   | ret es =>
     cases es with
     | nil => exact ⟨_, _, rfl, by decide⟩
@@ -1076,6 +1444,7 @@ theorem prS_head (s : JS) (h : ReadOKS s) : ∃ x tl, prS s = .id x :: tl ∧ x 
   | ifs c t e => exact ⟨_, _, rfl, by decide⟩
   | «while» c b => exact ⟨_, _, rfl, by decide⟩
   | for3 v a c d b => exact ⟨_, _, rfl, by decide⟩
+  | forOf v l b => exact ⟨_, _, rfl, by decide⟩
   | _ => exact absurd h (by simp [ReadOKS])
 
 theorem jBlock_close (f : Nat) (r : List JTok) : jBlock (f + 1) (.p .rc :: r) = some ([], r) := by
@@ -1170,7 +1539,20 @@ theorem jStmt_prT : ∀ (s : JS), ReadOKS s → ∀ (rest : List JTok) (f : Nat)
   | .ret es, h, rest, f, _, _ => jStmt_prS (.ret es) h rfl rest f
   | .var n, h, rest, f, _, _ => jStmt_prS (.var n) h rfl rest f
   | .brk, h, _, _, _, _ => absurd h (by simp [ReadOKS])
-  | .forOf _ _ _, h, _, _, _, _ => absurd h (by simp [ReadOKS])
+  | .forOf v l b, h, rest, f, hf, _ => by
+    simp only [ReadOKS] at h
+    obtain ⟨hv, hl, hb⟩ := h
+    simp only [stW] at hf
+    let R3 := prBody b ++ .p .rc :: rest
+    let R2 := prJ l ++ .p .rp :: .p .lc :: R3
+    let R1 := prJ v ++ .id "of".toList :: R2
+    have e1 : jExpr (10 * (R1.length + 1 + 2)) R1 = some (v, .id "of".toList :: R2) :=
+      jExpr_read v hv (.id "of".toList :: R2) (jfollow_id _ _ _) trivial _ (by simp [R1]; omega)
+    have e2 : jExpr (10 * (R1.length + 1 + 2)) R2 = some (l, .p .rp :: .p .lc :: R3) :=
+      jExpr_read l hl (.p .rp :: .p .lc :: R3) (jfollow_closer _ _ _ (Or.inl rfl)) trivial _ (by simp [R1, R2]; omega)
+    have e3 := jBlock_prT b hb rest f (by omega)
+    have := jStmt_forof f R1 R2 R3 rest v l b e1 e2 e3
+    simpa [prS, R1, R2, R3, List.append_assoc] using this
   | .with _ _, h, _, _, _, _ => absurd h (by simp [ReadOKS])
 /-- **J5 (reading, trees)**: a block body up to its closing brace -/
 theorem jBlock_prT : ∀ (ss : List JS), ReadOKSs ss → ∀ (rest : List JTok) (F : Nat), ssW ss + 2 ≤ F →
